@@ -243,14 +243,31 @@ func cmpU(a, b uint64) int {
 func (e *eng) Op(f []string, line string, out *hx.Out) {
 	switch f[0] {
 	case "nuk":
-		p, s := hx.UnHex(f[1]), hx.UnHex(f[2])
+		// the inputs live in buffers with spare capacity filled with a sentinel: an encoder must neither write
+		// into its caller's memory nor return a key that aliases it
+		p, pbuf := spare(hx.UnHex(f[1]))
+		s, sbuf := spare(hx.UnHex(f[2]))
 		k := statedb.VerifEncodeNonUniqueKey(p, s)
+		k0 := append([]byte{}, k...)
+		clobber := !intact(pbuf, len(p)) || !intact(sbuf, len(s))
+		scribble(pbuf)
+		scribble(sbuf)
+		aliased := !bytes.Equal(k, k0)
+		k = k0
+		p, s = hx.UnHex(f[1]), hx.UnHex(f[2])
 		ps, ep, es, pan := parts(k)
 		bad := ""
+		if clobber {
+			bad = " !BAD:C18:encoder-wrote-into-input"
+		} else if aliased {
+			bad = " !BAD:C18:key-aliases-input"
+		}
 		// separable: the accessors split the key into a part that is an injective function of the
 		// secondary alone, the separator, a part that is an injective function of the primary alone,
 		// and the 2-byte suffix (checked semantically, not against a particular escape scheme)
-		if pan || len(es)+1+len(ep)+2 != len(k) || !bytes.HasPrefix(k, es) || !bytes.Equal(k[len(k)-2-len(ep):len(k)-2], ep) ||
+		if bad != "" {
+			// already flagged
+		} else if pan || len(es)+1+len(ep)+2 != len(k) || !bytes.HasPrefix(k, es) || !bytes.Equal(k[len(k)-2-len(ep):len(k)-2], ep) ||
 			!e.fn("es", s, es) || !e.fn("ep", p, ep) {
 			bad = " !BAD:C18:separable"
 		}
@@ -313,10 +330,21 @@ func (e *eng) Op(f []string, line string, out *hx.Out) {
 					out.P("P:C18 panic%s", bad)
 				}
 			}()
-			k := lpm.EncodeLPMKey(d, lpm.PrefixLen(pl))
+			din, dbuf := spare(d)
+			k := lpm.EncodeLPMKey(din, lpm.PrefixLen(pl))
+			k0 := append([]byte{}, k...)
+			clobber := !intact(dbuf, len(din))
+			scribble(dbuf)
+			aliased := !bytes.Equal(k, k0)
+			k = k0
 			d2, pl2 := lpm.DecodeLPMKey(k)
 			bad := ""
-			if int(pl2) != pl || !bytes.Equal(d2, refMask(d, pl)) {
+			if clobber {
+				bad = " !BAD:C18:encoder-wrote-into-input"
+			} else if aliased {
+				bad = " !BAD:C18:key-aliases-input"
+			}
+			if bad == "" && (int(pl2) != pl || !bytes.Equal(d2, refMask(d, pl))) {
 				bad = " !BAD:C18:lpm-roundtrip"
 			}
 			out.P("M:C18 %s%s", hx.Hex(k), bad)
@@ -357,4 +385,28 @@ func escLen(b []byte) int {
 		}
 	}
 	return n
+}
+
+// spare returns a copy of b that lives at the start of a larger buffer whose remaining capacity is filled
+// with a sentinel, together with that buffer.
+func spare(b []byte) (in []byte, buf []byte) {
+	buf = make([]byte, len(b)+24)
+	copy(buf, b)
+	for i := len(b); i < len(buf); i++ {
+		buf[i] = 0xa5
+	}
+	return buf[:len(b)], buf
+}
+func intact(buf []byte, n int) bool {
+	for i := n; i < len(buf); i++ {
+		if buf[i] != 0xa5 {
+			return false
+		}
+	}
+	return true
+}
+func scribble(buf []byte) {
+	for i := range buf {
+		buf[i] ^= 0x5a
+	}
 }
